@@ -11,7 +11,7 @@ EXTENDS Wrapper, Json, IOUtils, SequencesExt
 UNIT == 10000
 Recs == ndJsonDeserialize(IOEnv.TRACE_FILE)
 VARIABLES tid, l, bad
-tvars == <<created, lb, ub, cost, sense, pfix, plb, status, snap, tid, l, bad>>
+tvars == <<created, lb, ub, cost, offset, sense, pfix, plb, status, snap, tid, l, bad>>
 R == Recs[tid]
 Op == R.ops[l]
 Ob == R.obs[l]
@@ -27,7 +27,7 @@ Apply ==
   CASE Op[1] = "add" -> AddVar(Op[2], Op[3], Op[4])
     [] Op[1] = "fix" -> QueueFix(Op[2], Op[3])
     [] Op[1] = "lb"  -> QueueLB(Op[2], Op[3])
-    [] Op[1] = "obj" -> SetObjective(Coefs(Op[2]), Op[3])
+    [] Op[1] = "obj" -> SetObjective(Coefs(Op[2]), Op[4], Op[3])
     [] Op[1] = "opt" -> Optimize
     [] Op[1] = "get" -> GetValues(ToSet(Op[2]))
 
@@ -39,7 +39,7 @@ ColsMatch == /\ Ob.order = created'
 SenseMatch == Ob.sense = sense'
 StatusMatch == Op[1] = "opt" => Ob.status = (IF status' = "Optimal" THEN "kOptimal" ELSE "kInfeasible")
 ObjMatch == (Op[1] = "opt" /\ status' = "Optimal") =>
-               Ob.objval = UNIT * (LET RECURSIVE S(_)
+               Ob.objval = UNIT * (offset' + LET RECURSIVE S(_)
                                        S(i) == IF i = 0 THEN 0 ELSE S(i - 1) + cost'[created'[i]] *
                                                  (IF cost'[created'[i]] = 0 THEN 0
                                                   ELSE IF (cost'[created'[i]] > 0) = (sense' = "minimize") THEN lb'[created'[i]] ELSE ub'[created'[i]])
@@ -66,7 +66,7 @@ Step == /\ l <= Len(R.ops)
 (* a logged call the specification cannot take (never for generated histories) *)
 Stuck == /\ l <= Len(R.ops) /\ ~ENABLED Apply
          /\ bad' = bad \cup {"OpNotEnabledInSpec"} /\ l' = Len(R.ops) + 1
-         /\ UNCHANGED <<created, lb, ub, cost, sense, pfix, plb, status, snap, tid>>
+         /\ UNCHANGED <<created, lb, ub, cost, offset, sense, pfix, plb, status, snap, tid>>
 TNext == Step \/ Stuck
 TSpec == TInit /\ [][TNext]_tvars
 
